@@ -5,7 +5,7 @@ from ..nf import Rat, C
 from ..source import Unsupported, AnchorError
 from ..xlate import Interp, Obj, ListV, DictV, Raised
 from .common import same, show, sub, opaque_obj
-from .rxnfix import reaction, state_sum, species, set_public
+from .rxnfix import reaction, state_sum, species, set_public, get_public
 from .c08 import expected_delta, expected_state
 
 CHEM = 'pmutt.reaction.ChemkinReaction'
@@ -170,7 +170,17 @@ def preexp_reaction(run, repo):
         dq = expected_delta(I, rxn, 'get_q', kwq, rev, True)
         run.check(same(got, kb * T / h * dq * D.exp(m_)), 'REF.A', 'Reaction.get_A', 'q route rev=%s' % rev,
                   'A is %s, expected (kB T/h) (q_TS/q_IS) exp(m)' % show(got, 200), owner.module, fn)
-        n += 2
+        # molecularity left to the reaction (m=None): the sum of the coefficients of the initial state of that direction
+        got = I.call_method(rxn, 'get_A', [], dict(kw, rev=rev, m=None, use_q=False))
+        ini = get_public(I, rxn, 'products_stoich' if rev else 'reactants_stoich')
+        mol = C(0)
+        for x_ in ini.items:
+            mol = mol + x_
+        run.check(same(got, kb * T / h * D.exp(dS) * D.exp(mol)), 'REF.A', 'Reaction.get_A',
+                  'molecularity from the stoichiometry rev=%s' % rev,
+                  'with m=None A is %s, expected (kB T/h) exp(dS_act/R) exp(sum of the %s coefficients)'
+                  % (show(got, 200), 'product' if rev else 'reactant'), owner.module, fn)
+        n += 3
     return n
 
 
